@@ -22,10 +22,11 @@
 //!              the set of live connections changed is reported `unsettled` (not judged).
 //!
 //! Refiller tie, one line per node at the end of a cluster's life:
-//!   R <initial nr_shards>.<msb> <pool>/<shard-aware port disallowed> <rounds: k<n> cut n connections | s<nr>k<n> the node
+//!   R <initial nr_shards>.<msb> <pool>/<shard-aware port disallowed> <rounds: k<n>[+<shift>] cut n connections (after <shift> raw
+//!     connections that shift the mock's plain-port round-robin) | s<nr>k<n> the node
 //!     first changes its shard count to nr (resharding),.. | -> | <events> <final shards>
 //!     events: ;-joined, in the order the mock saw them:  r<conn>.<shard>.<shard-aware port 0|1>.<nr_shards reported> (handshake
-//!     of a pool connection completed) | b<conn>.<shard>.<nr_shards> (the mock cut it); final shards: +-joined server-side shards of the
+//!     of a pool connection completed) | b<conn>.<shard>.<nr_shards> (the mock cut it) | c<conn>.<shard>.<nr_shards> (the CLIENT closed it); final shards: +-joined server-side shards of the
 //!     established pool | _
 //!
 //! Pool tie, one line per (node, shard) probed in the pass that established the pools:
@@ -522,7 +523,7 @@ const PROBE_TEXT: &str = "SELECT probe FROM zzks.probe";
 
 impl Running {
     async fn start(c: &ClusterC, stmts: &[StmtC]) -> Result<Running, String> {
-        let cluster = MockCluster::start(mock_spec(c, stmts)).await.map_err(|e| format!("mock-start {:?}", e))?;
+        let cluster = MockCluster::start(mock_spec(c, stmts)).await.map_err(|e| format!("mock-start_{:?}", e).replace(' ', "_"))?;
         for (i, n) in c.nodes.iter().enumerate() {
             if n.up == 'b' {
                 cluster.stop_node(i, CutKind::Rst);
@@ -536,7 +537,7 @@ impl Running {
             SENT_TEXT,
             PreparedSpec { bind_columns: vec![ColSpec::new("zzks", "zz", "c0", CqlType::Int)], ..Default::default() },
         );
-        let contact = c.nodes.iter().position(|n| n.up != 'b' && !n.flt).ok_or("no contact node")?;
+        let contact = c.nodes.iter().position(|n| n.up != 'b' && !n.flt).ok_or("no_contact_node")?;
         let mut pb = DefaultPolicy::builder().token_aware(c.cfg.ta).permit_dc_failover(c.cfg.fo).enable_shuffling_replicas(c.cfg.shuf);
         pb = match &c.cfg.pol_pref {
             Pref::Inherit => pb,
@@ -642,8 +643,10 @@ impl Running {
                     self.control.insert(e.conn_id);
                 }
                 Ev::Close { by } => {
-                    if *by != CloseBy::Client && self.life.get(&e.conn_id).is_some_and(|l| l.3) {
-                        self.events.push((e.node, 'b', e.conn_id));
+                    if self.life.get(&e.conn_id).is_some_and(|l| l.3) {
+                        // 'b': the mock cut it (an input of the refiller); 'c': the client closed it (an
+                        // output: a connection the refiller let go)
+                        self.events.push((e.node, if *by != CloseBy::Client { 'b' } else { 'c' }, e.conn_id));
                     }
                 }
                 _ => {}
@@ -665,7 +668,7 @@ impl Running {
             .filter(|(nd, _, cid)| *nd == i && !self.control.contains(cid))
             .map(|(_, k, cid)| {
                 let l = self.life[cid];
-                if *k == 'r' { format!("r{:x}.{:x}.{}.{:x}", cid, l.1, b01(l.2), l.4) } else { format!("b{:x}.{:x}.{:x}", cid, l.1, l.4) }
+                if *k == 'r' { format!("r{:x}.{:x}.{}.{:x}", cid, l.1, b01(l.2), l.4) } else { format!("{}{:x}.{:x}.{:x}", k, cid, l.1, l.4) }
             })
             .collect();
         let mut fin: Vec<u16> = self.judged.values().filter(|(nd, _)| *nd == i).map(|(_, s)| *s).collect();
@@ -691,7 +694,7 @@ impl Running {
             self.c.nodes[i].nr = nr;
             self.rounds[i].push(format!("s{:x}k{:x}", nr, ids.len()));
         } else {
-            self.rounds[i].push(format!("k{:x}", ids.len()));
+            self.rounds[i].push(if shift > 0 { format!("k{:x}+{:x}", ids.len(), shift) } else { format!("k{:x}", ids.len()) });
         }
         for id in &ids {
             self.cluster.close_connection(i, *id, CutKind::Rst);
@@ -1286,7 +1289,33 @@ fn gen_tablet_ops(r: &mut Rng, c: &ClusterC, aim: &[i64]) -> Vec<TabOp> {
     ops
 }
 
-async fn run_cluster(r: &mut Rng, c: &ClusterC, nkeys: usize, out: &mut Out) {
+/// A fixed share of the clusters is shaped so that its first kill round ALWAYS takes the refiller through a
+/// rare branch (the coverage floors of those branches must not depend on luck):
+/// ReqDrop: node 1 has 8 shards, PerShard(1), shard-aware port; it is resharded to 2 shards while all but one of
+///   its connections are cut: 7 replacements aimed at 7 distinct old shards collide on 2 new ones, the surplus
+///   of a requested connection is dropped at once;
+/// Trim: node 1 has 4 shards, PerShard(1), plain port only; one connection is cut after the mock's round-robin
+///   was shifted by one: the replacements land on covered shards first and wait in the excess list until the
+///   missing shard arrives, then they are trimmed.
+#[derive(Clone, Copy, PartialEq)]
+enum Forced {
+    ReqDrop,
+    Trim,
+}
+fn force_shape(c: &mut ClusterC, f: Forced) {
+    let n0 = &mut c.nodes[0];
+    n0.up = 'u';
+    n0.flt = false;
+    if n0.tokens.is_empty() {
+        n0.tokens.push(12345);
+    }
+    n0.nr = if f == Forced::ReqDrop { 8 } else { 4 };
+    c.cfg.per_shard = true;
+    c.cfg.pool_n = 1;
+    c.cfg.no_sap = f == Forced::Trim;
+}
+
+async fn run_cluster(r: &mut Rng, c: &ClusterC, nkeys: usize, out: &mut Out, forced: Option<Forced>) {
     let nst = r.range(1, 3) as usize;
     let stmts: Vec<StmtC> = (0..nst).map(|i| gen_stmt(r, c, i as u32)).collect();
     let mut cf = c.fields();
@@ -1296,13 +1325,29 @@ async fn run_cluster(r: &mut Rng, c: &ClusterC, nkeys: usize, out: &mut Out) {
         Err(_) => match Running::start(c, &stmts).await {
             Ok(x) => x,
             Err(e) => {
-                out.case(&format!("K {} {} - {}", cf, stmts[0].field(), "n"), &format!("skip:{} -", e));
+                out.case(&format!("K {} {} - {}", cf, stmts[0].field(), "n"), &format!("skip:{} -", e.replace(char::is_whitespace, "_")));
                 return;
             }
         },
     };
     for (case, o) in &run.ptie {
         out.case(case, o);
+    }
+    if let Some(f) = forced {
+        let have = run.judged.values().filter(|(nd, _)| *nd == 0).count();
+        let ok = match f {
+            Forced::ReqDrop => run.kill_round(0, have - 1, 0, Some(2)).await,
+            Forced::Trim => run.kill_round(0, 1, 1, None).await,
+        };
+        if !ok {
+            out.case(&format!("K {} {} - {}", cf, stmts[0].field(), "n"), "skip:refill-not-established -");
+            run.stop();
+            return;
+        }
+        for (case, o) in &run.ptie {
+            out.case(case, o);
+        }
+        cf = run.c.fields();
     }
     // every statement is prepared first: tablet payloads for the tables are delivered interleaved
     let mut prepared: Vec<Option<PreparedStatement>> = Vec::new();
@@ -1457,7 +1502,7 @@ async fn replay_line(case: &str, out: &mut Out) {
                 }
                 run.stop();
             }
-            Err(e) => out.case(case, &format!("skip:{} -", e)),
+            Err(e) => out.case(case, &format!("skip:{} -", e.replace(char::is_whitespace, "_"))),
         }
         return;
     }
@@ -1481,8 +1526,12 @@ async fn replay_line(case: &str, out: &mut Out) {
                             }
                             None => (None, k[1..].to_string()),
                         };
+                        let (kk, shift) = match kk.split_once('+') {
+                            Some((a, b)) => (a.to_string(), usize::from_str_radix(b, 16).unwrap()),
+                            None => (kk, 0),
+                        };
                         let want = usize::from_str_radix(&kk, 16).unwrap();
-                        if !run.kill_round(0, want, if reshard.is_some() { 0 } else { 1 }, reshard).await {
+                        if !run.kill_round(0, want, shift, reshard).await {
                             ok = false;
                             break;
                         }
@@ -1497,7 +1546,7 @@ async fn replay_line(case: &str, out: &mut Out) {
                 }
                 run.stop();
             }
-            Err(e) => out.case(case, &format!("skip:{} -", e)),
+            Err(e) => out.case(case, &format!("skip:{} -", e.replace(char::is_whitespace, "_"))),
         }
         return;
     }
@@ -1512,7 +1561,7 @@ async fn replay_line(case: &str, out: &mut Out) {
     let mut run = match Running::start(&c, std::slice::from_ref(&st)).await {
         Ok(x) => x,
         Err(e) => {
-            out.case(case, &format!("skip:{} -", e));
+            out.case(case, &format!("skip:{} -", e.replace(char::is_whitespace, "_")));
             return;
         }
     };
@@ -1554,9 +1603,14 @@ fn main() {
         }
         let nkeys = if a.tier == "thorough" { 240 } else { 100 };
         let mut r = Rng::new(a.seed ^ 0xC12C_12C1_2C12);
-        for _ in 0..a.n {
-            let c = gen_cluster(&mut r);
-            run_cluster(&mut r, &c, nkeys, &mut out).await;
+        for idx in 0..a.n {
+            let mut c = gen_cluster(&mut r);
+            // one cluster in twenty of each forced shape
+            let forced = match idx % 20 { 3 => Some(Forced::ReqDrop), 13 => Some(Forced::Trim), _ => None };
+            if let Some(f) = forced {
+                force_shape(&mut c, f);
+            }
+            run_cluster(&mut r, &c, nkeys, &mut out, forced).await;
         }
     });
     out.finish();
